@@ -141,6 +141,52 @@ CLAIMS['C15'] = dict(
     'polynomial maps + exact Jacobian / moment identities',
     engine='E5-quadalg')
 
+CLAIMS['C01'] = dict(
+    category='other',
+    text='Decides that the computation is the integral it claims to be, for '
+    'all inputs: CAS certificates for the time antiderivatives (K1, K2) and '
+    'the four closed forms fint_1..4 (K4), four-term inclusion-exclusion '
+    'with guards, positive time differences, exact tiling and precondition '
+    'satisfaction on every path of both recursive splitters, grading of '
+    'every leaf rule towards the contact / nearest point incl. the seam, '
+    'coordinate-to-curve binding and time roles in bilform, evenness, '
+    'translation geometry of the closed-form leaves, and that the switch to '
+    'the straight-panel closed forms entails a polygonal curve.  The 1e-7 '
+    'quadrature accuracy is not decided.',
+    design_ref='DESIGN.md section 3 E2/E3/E4, section 4 C01',
+    note='Trusted: ast, sympy, the linear fact domain, role binding by '
+    'parameter names.  Not decided: accuracy of the log/Duffy rules on the '
+    'smooth remainder; cancellation in the closed forms.',
+    technique='path-sensitive abstract interpretation with linear-'
+    'inequality entailment (partition/precondition/apex rules) + CAS '
+    'identity certificates on lifted closed forms',
+    engine='E4-panels')
+CLAIMS['C11'] = dict(
+    category='other',
+    text='Decides the exact-arithmetic part: both recursive splitters tile '
+    'the parameter rectangle exactly on every path with preconditions met, '
+    'so the decomposition is additive; the four virtual quarters tile the '
+    'parent in the fixed order and inherit its piece.  The 1e-7 agreement '
+    'of different quadrature rules is not decided.',
+    design_ref='DESIGN.md section 3 E4/E6, section 4 C11',
+    note='Trusted: ast, linear fact domain.  Not decided: numerical '
+    'agreement of parent and child quadratures.',
+    technique='path-sensitive partition/precondition analysis; symbolic '
+    'child geometry', engine='E4-panels')
+CLAIMS['C12'] = dict(
+    category='other',
+    text='Exchange symmetry by construction (coordinate/curve binding in '
+    'both orderings + evenness of the kernel in x + argument permutation on '
+    'the closed-form path), time-shift invariance by construction (kernels '
+    'are functions of time differences, guards compare two time values), '
+    'and seam branches graded towards 0~L exactly like interior branches '
+    'towards b=c.  Invariance under curve motions to 1e-7 is not decided.',
+    design_ref='DESIGN.md section 3 E3/E4, section 4 C12',
+    note='Trusted: ast, sympy, linear fact domain.  Not decided: numerical '
+    'invariance under rotations/reflections of the curve.',
+    technique='binding/evenness/difference-only shape rules + apex analysis '
+    'with linear-inequality entailment', engine='E4-panels')
+
 PENDING = 'rule set not yet implemented in this build (see DESIGN.md Appendix F for the order)'
 NA = {
     'C13':
@@ -166,6 +212,10 @@ ENGINES = [
     ('E5-quadalg', 'stbem_static/quadalg.py',
      'symbolic evaluation of scheme constructors; Jacobians and push-forward '
      'moments in exact polynomial arithmetic'),
+    ('E4-panels', 'stbem_static/panels.py',
+     'panel/interval order analysis of the recursive splitters and of '
+     'bilform (partition, precondition, apex, binding, straightness); '
+     'hier.py virtual children'),
     ('E3-causal', 'stbem_static/causal.py',
      'causality guards and time-difference positivity over absint.py '
      '(path facts, Fourier-Motzkin entailment); kernels.py CAS certificates; '
